@@ -795,8 +795,8 @@ macro_rules! impl_range_ints(
                 fn view_bounds(self, size: usize) -> Option<(usize, usize)> {
                     range_bounds(
                         Range {
-                            start: self.start as i64,
-                            end: self.end as i64,
+                            start: i64::try_from(self.start).unwrap_or(i64::MAX),
+                            end: i64::try_from(self.end).unwrap_or(i64::MAX),
                         },
                         size,
                     )
@@ -805,27 +805,27 @@ macro_rules! impl_range_ints(
 
             impl ViewBounds for RangeFrom<$int_type> {
                 fn view_bounds(self, size: usize) -> Option<(usize, usize)> {
-                    range_bounds(RangeFrom { start: self.start as i64 }, size)
+                    range_bounds(RangeFrom { start: i64::try_from(self.start).unwrap_or(i64::MAX) }, size)
                 }
             }
 
             impl ViewBounds for RangeTo<$int_type> {
                 fn view_bounds(self, size: usize) -> Option<(usize, usize)> {
-                    range_bounds(RangeTo { end: self.end as i64 }, size)
+                    range_bounds(RangeTo { end: i64::try_from(self.end).unwrap_or(i64::MAX) }, size)
                 }
             }
 
             impl ViewBounds for RangeInclusive<$int_type> {
                 fn view_bounds(self, size: usize) -> Option<(usize, usize)> {
-                    let start = *self.start() as i64;
-                    let end = *self.end() as i64;
+                    let start = i64::try_from(*self.start()).unwrap_or(i64::MAX);
+                    let end = i64::try_from(*self.end()).unwrap_or(i64::MAX);
                     range_bounds(start..=end, size)
                 }
             }
 
             impl ViewBounds for RangeToInclusive<$int_type> {
                 fn view_bounds(self, size: usize) -> Option<(usize, usize)> {
-                    let end = self.end as i64;
+                    let end = i64::try_from(self.end).unwrap_or(i64::MAX);
                     range_bounds(..=end, size)
                 }
             }
@@ -849,7 +849,7 @@ fn range_bounds(bound: impl RangeBounds<i64>, size: usize) -> Option<(usize, usi
         Bound::Excluded(start) => (*start, 1),
     };
     let offset = if start >= size { 1 } else { offset };
-    let start = clamp(start + size, 0, 2 * size - 1) % size + offset;
+    let start = clamp(start.saturating_add(size), 0, 2 * size - 1) % size + offset;
 
     let (end, offset) = match bound.end_bound() {
         Bound::Unbounded => (-1, 1),
@@ -864,7 +864,7 @@ fn range_bounds(bound: impl RangeBounds<i64>, size: usize) -> Option<(usize, usi
     } else {
         offset
     };
-    let end = clamp(end + size, 0, 2 * size - 1) % size + offset;
+    let end = clamp(end.saturating_add(size), 0, 2 * size - 1) % size + offset;
 
     if end <= start {
         None
